@@ -63,6 +63,9 @@ def run_profiler(d, fakedir, binary, with_go=True, timeout=60, fsize=None):
 def check(ctx, replay=None):
     th = ctx.tier == "thorough"
     d = cmdfam.build_cmds(ctx)
+    r2 = ctx.tlc("ProfCache2", "CONSTANTS\n  NChunks = 3\n  Dev = {}\nSPECIFICATION Spec\nINVARIANTS CacheSoundAfterOverlap\nCHECK_DEADLOCK FALSE\n", workers=2, timeout=600)
+    if r2["violated"]:
+        raise vlib.Machinery("TLC: %s violated in ProfCache2: the specification of the unchanged design does not satisfy its own invariant" % r2["violated"])
     r = ctx.tlc("ProfCache", MC_CFG % NCHUNKS, workers=4, timeout=600)
     if r["violated"]:
         raise vlib.Machinery("TLC: %s violated: the specification of the unchanged design does not satisfy its own invariant" % r["violated"])
@@ -139,6 +142,44 @@ def check(ctx, replay=None):
                                        "admissible": "the cold-cache profile, or an error", "how": "./check C17 quick"})
                     if len(ctx.cov["samples"]) < 3 and fate.startswith("kill"):
                         ctx.sample({"fate": fate, "rebuilt": rebuilt, "first_rc": first["rc"], "cache_after_first_run": disk, "second_used_cache": second["cached"], "second_profile": second["names"]})
+        # overlapping runs on one binary (ProfCache2.tla): run A has written `a` chunks when run B starts; B writes `b` chunks; A finishes
+        # and renames; then B's disassembler fails. The next normal run must give the cold-cache profile or fail.
+        import glob
+        import time
+        for a, b_chunks in ((2, 1), (3, 1), (3, 2)):
+            b = fresh_binary("overlap_%d_%d" % (a, b_chunks))
+            cache = cmdfam.cache_path(b)
+            ga, gb = os.path.join(d, "gateA_%d_%d" % (a, b_chunks)), os.path.join(d, "gateB_%d_%d" % (a, b_chunks))
+            env = {"PATH": fakedir + ":/usr/bin:/bin", "FAKEGO_DIR": fakedir, "HOME": "/root"}
+            cmdfam.set_mode(fakedir, "ok")
+            pa = subprocess.Popen([os.path.join(d, "seccomp-profiler"), "-format", "config", b], stdout=subprocess.PIPE, stderr=subprocess.PIPE, text=True, cwd="/",
+                                  env=dict(env, FAKEGO_MODE="gate_after_%d:%s" % (a, ga)))
+            t0 = time.time()
+            while time.time() - t0 < 10 and not any(os.path.getsize(x) > 4096 * a for x in glob.glob(cache + ".tmp*")):
+                time.sleep(0.02)
+            pb = subprocess.Popen([os.path.join(d, "seccomp-profiler"), "-format", "config", b], stdout=subprocess.PIPE, stderr=subprocess.PIPE, text=True, cwd="/",
+                                  env=dict(env, FAKEGO_MODE="gatefail_after_%d:%s" % (b_chunks, gb)))
+            time.sleep(0.5)
+            open(ga, "w").close()
+            try:
+                pa.communicate(timeout=30)
+                open(gb, "w").close()
+                pb.communicate(timeout=30)
+            except subprocess.TimeoutExpired:
+                pa.kill()
+                pb.kill()
+                ctx.skip("overlapping runs timed out")
+                continue
+            third = run_profiler(d, fakedir, b)
+            ctx.cov["evaluations"] += 1
+            ctx.cov["traces_validated_against_impl"] += 1
+            ctx.cov["distinct_nontrivial"] += 1
+            ctx.cov["overlapping_run_scenarios"] = ctx.cov.get("overlapping_run_scenarios", 0) + 1
+            if third is not None and third["rc"] == 0 and sorted(third["names"]) != sorted(want):
+                ctx.violation("after two overlapping runs on one binary (A had written %d chunks when B started, B's disassembler failed after %d, A finished in between) "
+                              "the next run printed the profile %s; a cold-cache run gives %s" % (a, b_chunks, third["names"], want),
+                              {"fate": "overlap a=%d b=%d" % (a, b_chunks), "run_A_rc": pa.returncode, "run_B_rc": pb.returncode, "third_run": third, "cold_profile": want,
+                               "admissible": "the cold-cache profile, or an error", "how": "./check C17 quick"})
         # write failures part-way (file size limit) with a listing small enough to sit in the writer's buffer until the final flush
         smalldir = os.path.join(d, "fakego_small")
         cmdfam.make_fake_go(smalldir, small_chunks())
